@@ -260,6 +260,10 @@ pub async fn exec_naming(id: &'static str, script: Value) -> ExecResult {
                         if (w - 1.0).abs() > 0.001 {
                             e.weight = w;
                         }
+                        // (the gRPC handlers' update tag covers `enabled` only when the request says disabled)
+                        if !*enabled {
+                            e.enabled = false;
+                        }
                         e.owner = Owner::Grpc(c);
                         e.fuzzy = true;
                         // the gRPC handler never changes the ephemeral flag of an existing instance
@@ -536,6 +540,8 @@ pub async fn exec_naming(id: &'static str, script: Value) -> ExecResult {
                             if e.weight_known && e.ephemeral && x.ephemeral && !e.unsure {
                                 vensure!((x.weight - e.weight).abs() < 0.001, "C12.weight", "after step {} ({:?}): {}:8080 of {} is served with weight {} but its weight is {} (set at registration or by the last request that named a weight)", i, st, x.ip, SVCS[s as usize], x.weight, e.weight);
                                 sim::count("probe.weight_compared", 1);
+                                // ... and `enabled` only by a request that names it (HTTP: parameter present; gRPC: enabled=false)
+                                vensure!(x.enabled == e.enabled, "C12.enabled", "after step {} ({:?}): {}:8080 of {} is served with enabled={} but the last request that named the flag set it to {}", i, st, x.ip, SVCS[s as usize], x.enabled, e.enabled);
                             }
                             if !e.fuzzy {
                                 vensure!(x.ephemeral == e.ephemeral && x.enabled == e.enabled && (x.weight - e.weight).abs() < 0.001, "C12.flags", "after step {} ({:?}): {}:8080 of {} is served with ephemeral={} enabled={} weight={} but was registered with ephemeral={} enabled={} weight={}", i, st, x.ip, SVCS[s as usize], x.ephemeral, x.enabled, x.weight, e.ephemeral, e.enabled, e.weight);
